@@ -40,7 +40,7 @@ RULE = (
 )
 
 ASSUMPTIONS = [
-    "the line terminator is the single byte 0x0A; CR is never generated (the property does not say whether it belongs to the terminator)",
+    "the line terminator is the single byte 0x0A. A CR in the middle of a line is content under every reading and is generated; a CR directly before the LF (or as the last byte of the input) is never generated: the property does not say whether it belongs to the terminator, the unchanged Unix implementation keeps it, and this check does not decide it (seeded change C17-r3-1, which strips it, is therefore not reported, by design)",
     "input texts are valid UTF-8 (read_line reports anything else as an I/O error); two fixed extra runs per build feed invalid UTF-8 and only require exit code 0 or 1 without a signal",
     "how the kernel splits the text across read(2) calls is influenced (write sizes, 1-5 ms pauses, first write either immediately or after the script printed its ready marker), not controlled; the sizes actually returned by read(0, ..) are measured with strace on a subset of runs and reported as evidence, they do not enter the verdict",
     "pty runs: canonical mode, echo and all special characters except EOF disabled, printable text with lines < 4000 bytes; end of input is signalled by EOT at line start; a pty mismatch is re-checked with a reference reader on the same schedule and counted as inconclusive when the reference reader does not see the text either",
@@ -72,7 +72,8 @@ SPECIALS = list("<>{}[]()\"\\'#$%&|;: \t")
 TWO = [chr(c) for c in (0xE9, 0xF1, 0x3A9, 0x416, 0x7FF, 0x80)]
 THREE = [chr(c) for c in (0x800, 0x20AC, 0x4E2D, 0xFFFD, 0x2028, 0xFEFF)]
 FOUR = [chr(c) for c in (0x10000, 0x1F600, 0x1F1F3, 0x10FFFF)]
-CONTROLS = [chr(c) for c in (0x00, 0x01, 0x04, 0x07, 0x08, 0x0B, 0x0C, 0x1B, 0x7F, 0x85)]
+# CR occurs inside lines only (never as the last character of a line, see ASSUMPTIONS)
+CONTROLS = [chr(c) for c in (0x00, 0x01, 0x04, 0x07, 0x08, 0x0B, 0x0C, 0x0D, 0x0D, 0x1B, 0x7F, 0x85)]
 
 
 def rand_char(rng, charset):
@@ -126,6 +127,8 @@ def make_line(rng, nbytes, charset):
             w = 1
         out.append(ch)
         used += w
+    if out and out[-1] == "\r":
+        out[-1] = "x"
     return "".join(out)
 
 
